@@ -972,7 +972,7 @@ class StructuredTypeUnmarshaller(AbstractUnmarshaller[_ST]):
         - [`typelib.serdes.itervalues`][]
     """
 
-    __slots__ = ("fields_by_var",)
+    __slots__ = ("fields_by_var", "required")
 
     def __init__(self, t: type[_ST], context: ContextT, *, var: str | None = None):
         """Constructor.
@@ -984,6 +984,12 @@ class StructuredTypeUnmarshaller(AbstractUnmarshaller[_ST]):
         """
         super().__init__(t, context, var=var)
         self.fields_by_var = self._fields_by_var()
+        # A TypedDict is a plain dict at runtime, so the constructor enforces nothing.
+        self.required = (
+            frozenset(getattr(t, "__required_keys__", ()))
+            if inspection.istypeddict(t)
+            else frozenset()
+        )
 
     def _fields_by_var(self):
         fields_by_var = {}
@@ -1013,4 +1019,7 @@ class StructuredTypeUnmarshaller(AbstractUnmarshaller[_ST]):
         decoded = serdes.load(val)
         fields = self.fields_by_var
         kwargs = {f: fields[f](v) for f, v in serdes.iteritems(decoded) if f in fields}
+        if not self.required <= kwargs.keys():
+            missing = sorted(self.required - kwargs.keys())
+            raise TypeError(f"{self.t!r} missing required keys: {missing!r}")
         return self.t(**kwargs)
